@@ -271,6 +271,19 @@ def check(spec, ctx):
         dur = [f.value for f in geometry.compute_geometric_features(h) if f.term.name == terms.duration.name]
         if dur and float(dur[0]) != want_s[2] - want_s[0]:
             ctx.fail(f"{how} of a {kind}: duration feature {dur[0]} != {want_s[2] - want_s[0]}", spec, dur[0], want_s[2] - want_s[0], kind="stale_bounds")
+    # two threads measuring two different geometries: this one is suspended at lines inside the library while the other thread
+    # measures the shifted geometry from start to end
+    def measure(x):
+        shp = geometry.geometry_to_shapely(x)
+        return (
+            tuple(float(v) for v in geometry.compute_bounds(x)),
+            shp.geom_type,
+            tuple(float(v) for v in shp.bounds),
+            tuple(map(float, geometry.get_geometry_point(x, position="center"))),
+            [(f.term.name, float(f.value)) for f in geometry.compute_geometric_features(x)],
+        )
+
+    ctx.interleave(spec, f"compute_bounds / geometry_to_shapely / get_geometry_point / compute_geometric_features ({kind})", lambda: measure(g), lambda: measure(revalidated), every=4, max_pauses=40)
     if tuple(float(x) for x in geometry.compute_bounds(dc)) != eb:
         ctx.fail("deep copy reports different bounds", spec, None, eb, kind="stale_bounds")
     if tuple(float(x) for x in geometry.compute_bounds(g)) != eb:
